@@ -3,8 +3,8 @@
 //!    sentinel, offset after the BOM skip, line number) vs the Lean model (`parseLines`, `preludes`),
 //!    exhaustively over short strings on {a, space, \n, \r, NUL, BOM} and on random longer documents.
 //! S: relational oracle on the real code: markdown_to_html(x) vs markdown_to_html(T x) for the
-//!    rewrites LF->CRLF, LF->CR, add final newline, NUL->U+FFFD, prepend BOM (plus, with front matter
-//!    off, "any mix of line endings -> LF"), documents x random option vectors, sourcepos off.
+//!    rewrites LF->CRLF, LF->CR, add final newline, NUL->U+FFFD, prepend BOM (plus "any mix of line
+//!    endings -> LF"), documents x random option vectors, sourcepos off.
 use crate::gen::{mixed_doc, Corpus};
 use crate::model::{Batch, Model};
 use crate::opts::Opts;
@@ -137,25 +137,13 @@ fn html(x: &str, o: &Opts) -> Result<String, String> {
     catch_unwind(AssertUnwindSafe(|| markdown_to_html(x, &c))).map_err(|_| "PANIC in markdown_to_html".to_string())
 }
 
-/// "looks like front matter": after an optional BOM the LF form starts with the delimiter alone
-/// on its line and a later line starts with the delimiter.
-fn looks_like_front_matter(x_lf: &str, d: &str) -> bool {
-    let s = x_lf.strip_prefix(BOM).unwrap_or(x_lf);
-    match s.strip_prefix(d).and_then(|t| t.strip_prefix('\n')) {
-        Some(body) => body.contains(&format!("\n{}", d)),
-        None => false,
-    }
-}
-
-/// Syntactic class of a failing pair, used to match known findings.
-fn classify(kind: &str, o: &Opts, x: &str, tx: &str) -> &'static str {
+/// Syntactic class of a failing pair, used to match known findings. (The class
+/// "front-matter-cr-only-line-endings" is gone: since /repo commits d92265f and ef24343 the
+/// front-matter splitter and the line count after it read lines ended by LF, CRLF or CR, so a
+/// failure on such a text is a violation.)
+fn classify(_kind: &str, _o: &Opts, x: &str, tx: &str) -> &'static str {
     if x.len().max(tx.len()) > 100_000 && x.contains("]:") {
         return "reference-budget-depends-on-raw-size";
-    }
-    if let Some(d) = &o.front_matter_delimiter {
-        if kind == "cr" && looks_like_front_matter(x, d) {
-            return "front-matter-cr-only-line-endings";
-        }
     }
     "doc"
 }
@@ -299,12 +287,11 @@ fn run_doc(rep: &mut Report, r: &mut Rng, o: &Opts, doc: &str) {
     run_rel(rep, "nul", o, &xn, true);
     // BOM
     run_rel(rep, "bom", o, doc, true);
-    // mixed endings -> LF; an extra beyond the statement, so only with front matter off
-    // (with mixed endings the front-matter splitter prefers a CRLF delimiter: see C20)
-    let mut o2 = o.clone();
-    o2.front_matter_delimiter = None;
+    // mixed endings -> LF; an extra beyond the statement. Front matter stays on: since /repo commit
+    // d92265f the splitter takes the first closing line whatever the line endings are (Lean:
+    // C20.front_matter_any_line_endings)
     let xm = if doc.contains('\r') { doc.to_string() } else { noise(r, doc) };
-    run_rel(rep, "normalise-mixed", &o2, &xm, true);
+    run_rel(rep, "normalise-mixed", o, &xm, true);
 }
 
 /// The reference-expansion budget is `max(total_size, 100000)` with `total_size` the raw byte
@@ -348,7 +335,7 @@ pub fn run(cfg: &Cfg, rep: &mut Report) {
     let m = Model::from_env();
     let mut rng = Rng::new(cfg.seed ^ 0xC08);
     let corpus = Corpus::load();
-    rep.rule = "K: every string of <= N symbols over {a, space, LF, CR, NUL, BOM} (exhaustive) and generated documents with random line-ending/NUL/BOM noise, parsed by the real parser with the process_line tap on, vs the Lean model's parseLines/preludes. S: generated documents (grammar/palette/bytes/corpus) x random option vectors (sourcepos off), each under the rewrites LF->CRLF, LF->CR (on the LF form), +final newline (on the text without trailing line ends), NUL->U+FFFD (a NUL is injected when there is none), +BOM, and mixed endings->LF (front matter off); plus the reference-budget family. distinct_nontrivial counts distinct tapped line sequences with more than one line, a skipped BOM, or a sentinel.".into();
+    rep.rule = "K: every string of <= N symbols over {a, space, LF, CR, NUL, BOM} (exhaustive) and generated documents with random line-ending/NUL/BOM noise, parsed by the real parser with the process_line tap on, vs the Lean model's parseLines/preludes. S: generated documents (grammar/palette/bytes/corpus) x random option vectors (sourcepos off), each under the rewrites LF->CRLF, LF->CR (on the LF form), +final newline (on the text without trailing line ends), NUL->U+FFFD (a NUL is injected when there is none), +BOM, and mixed endings->LF; plus the reference-budget family. distinct_nontrivial counts distinct tapped line sequences with more than one line, a skipped BOM, or a sentinel.".into();
 
     // 1. K exhaustive
     let maxlen = if cfg.tier_thorough { 8 } else { 7 };
